@@ -82,7 +82,7 @@ theorem inject_reach (cfg : Cfg) (r : RunSt) (known : List Nat) (c id p : Nat) :
     Reach cfg r.s (inject cfg r known c id p).1.s := by
   unfold inject
   split
-  · exact (Reach.one cfg r.s (.srvReply c id p)).trans (drain_reach cfg _ known)
+  · exact (Reach.one cfg r.s (.srvReply c id p)).trans (drain_reach cfg _ _)
   · exact Reach.refl _ _
 
 theorem startGroup_reach (cfg : Cfg) (r : RunSt) (known es : List Nat) (g : List Tok) :
@@ -183,6 +183,21 @@ theorem runOp_reach (cfg : Cfg) (r : RunSt) (known : List Nat) (op : Op) (g : Li
     split
     · refine Reach.trans ?_ (openGate_reach cfg _ known)
       exact killConn_reach cfg { r with gated := false } known c g
+    · exact Reach.refl _ _
+  | idle c =>
+    dsimp only
+    split
+    · refine Reach.trans ?_ (openGate_reach cfg _ known)
+      exact killConn_reach cfg { r with gated := false } known c g
+    · exact Reach.refl _ _
+  | frame c id p inner => exact inject_reach _ _ _ _ _ _
+  | fhead c id p inner =>
+    dsimp only
+    split <;> exact Reach.refl _ _
+  | ftail c =>
+    dsimp only
+    split
+    · exact inject_reach cfg _ known _ _ _
     · exact Reach.refl _ _
   | gate => exact Reach.refl _ _
   | ungate =>
